@@ -399,7 +399,7 @@ func (w *World) BuildGenesis(app *exocoreapp.ExocoreApp) (map[string]json.RawMes
 			Name: name, ChainID: 1, ContractAddress: a.Addr, Decimal: a.PriceDec, Active: true, AssetID: w.AssetIDs[i],
 		})
 		op.TokenFeeders = append(op.TokenFeeders, &oracletypes.TokenFeeder{
-			TokenID: uint64(i + 1), RuleID: 1, StartRoundID: 1, StartBaseBlock: 1, Interval: a.Interval,
+			TokenID: uint64(i + 1), RuleID: 1, StartRoundID: 2, StartBaseBlock: 1, Interval: a.Interval, // round 1 is the bootstrapped genesis price
 		})
 		prices = append(prices, oracletypes.Prices{
 			TokenID: uint64(i + 1), NextRoundID: 2,
